@@ -25,6 +25,7 @@ import (
 	"github.com/elastos/Elastos.ELA/core/transaction"
 	common2 "github.com/elastos/Elastos.ELA/core/types/common"
 	"github.com/elastos/Elastos.ELA/core/types/interfaces"
+	"github.com/elastos/Elastos.ELA/core/types/outputpayload"
 
 	"verif/evid"
 	"verif/hx"
@@ -113,6 +114,28 @@ type caseA struct {
 	Who   string `json:"placed_address"`    // A | B
 	H     uint32 `json:"h"`
 	List  []int  `json:"list"`
+	// OutType is the output Type of the output at PosOu (0 = OTNone, 1 OTVote, 2 OTMapping,
+	// 3 OTCrossChain, 4 OTWithdrawFromSideChain, 5 OTReturnSideChainDepositCoin, 6 OTDposV2Vote,
+	// 7 OTStake, beyond: unknown values)
+	OutType int `json:"frozen_output_type"`
+}
+
+func typedPayload(t common2.OutputType) common2.OutputPayload {
+	switch t {
+	case common2.OTVote, common2.OTDposV2Vote:
+		return new(outputpayload.VoteOutput)
+	case common2.OTMapping:
+		return new(outputpayload.Mapping)
+	case common2.OTCrossChain:
+		return new(outputpayload.CrossChainOutput)
+	case common2.OTWithdrawFromSideChain:
+		return new(outputpayload.Withdraw)
+	case common2.OTReturnSideChainDepositCoin:
+		return new(outputpayload.ReturnSideChainDeposit)
+	case common2.OTStake:
+		return new(outputpayload.ExchangeVotesOutput)
+	}
+	return new(outputpayload.DefaultOutput)
 }
 
 func neutral(i int) common.Uint168 {
@@ -146,7 +169,14 @@ func buildA(c caseA, hA, hB common.Uint168) (interfaces.Transaction, map[*common
 		if i == c.PosOu {
 			ph = placed
 		}
-		outs = append(outs, &common2.Output{Value: 10, ProgramHash: ph})
+		o := &common2.Output{Value: 10, ProgramHash: ph}
+		if i == c.PosOu && c.OutType != 0 {
+			o.Type = common2.OutputType(c.OutType)
+			// the payload object the wire decoder would attach for this type (the frozen-address
+			// rule itself never looks at it)
+			o.Payload = typedPayload(o.Type)
+		}
+		outs = append(outs, o)
 	}
 	p, _ := interfaces.GetPayload(common2.TxType(c.Type), 0)
 	tx := transaction.CreateTransaction(common2.TxVersion09, common2.TxType(c.Type), 0, p, nil, ins, outs, 0, nil)
@@ -554,6 +584,34 @@ func main() {
 		}
 	})
 
+	// ---- (a-typed) every output Type value on the output that pays the frozen address
+	var typedEvals int64
+	outTypes := []int{1, 2, 3, 4, 5, 6, 7, 8, 128, 255}
+	par.Go(len(types), func(ti int) {
+		t := types[ti]
+		for nin := 1; nin <= 2; nin++ {
+			for nout := 1; nout <= 3; nout++ {
+				for po := 0; po < nout; po++ {
+					for pi := -1; pi < 1; pi++ {
+						for _, ot := range outTypes {
+							for _, h := range []uint32{coordStart - 1, coordStart, coordStart + 1, math.MaxUint32} {
+								for _, l := range [][]int{{0}, {2, 0}, {3, 0}} {
+									c := caseA{Type: t, NIn: nin, NOut: nout, PosIn: pi, PosOu: po, Who: "A", H: h, List: l, OutType: ot}
+									rej, errs := evalA(c, hA, hB)
+									atomic.AddInt64(&typedEvals, 1)
+									judgeA(r, c, rej, errs)
+									if t == int(common2.TransferAsset) && pi < 0 {
+										classes.Add(fmt.Sprintf("typed-output|type=%d|h-S=%d|rejected=%v", ot, int64(h)-int64(coordStart), rej))
+									}
+								}
+							}
+						}
+					}
+				}
+			}
+		}
+	})
+
 	// ---- (a-seq) call sequences on one shared list
 	seqClasses := &evid.Distinct{}
 	seqEvals := runSequences(r, hA, hB, seqClasses)
@@ -617,11 +675,12 @@ func main() {
 		"an entry whose address did not resolve (nil program hash) names no address; a coinbase is outside the statement (\"non-coinbase\") and never takes the ContextCheck path: the helper's verdict on a coinbase is recorded, not judged",
 		"SetupConfig is driven with withScrew=false")
 	r.Finish(evid.Coverage{
-		"evaluations":         evalsA + seqEvals + int64(nCfg) + int64(ctxN),
-		"distinct_nontrivial": classes.Len() + seqClasses.Len() + cfgClasses.Len() + ctxClasses.Len(),
-		"sequence_verdicts":   seqEvals,
+		"evaluations":           evalsA + typedEvals + seqEvals + int64(nCfg) + int64(ctxN),
+		"distinct_nontrivial":   classes.Len() + seqClasses.Len() + cfgClasses.Len() + ctxClasses.Len(),
+		"sequence_verdicts":     seqEvals,
+		"typed_output_verdicts": typedEvals,
 		"rule": "(a) every constructible transaction type x 1..3 inputs x 1..3 outputs x frozen address (A or B) at every input position / output position / both / none x heights {0,S-1,S,S+1,S+2,MaxUint32} x every frozen list of 0..2 entries over {A@S, A@S+1, B@S+1, unresolved@0}: real helper verdict == (some resolved entry of that address has started and the transaction spends from or pays to it); " +
-			"(a-seq) 6 two-entry lists (both listing orders of the start heights) x every sequence of up to 3 validations at heights {below both, between, above both} on ONE shared slice x 5 probe transactions: every verdict == stateless reference and the slice is unchanged after every call; " +
+			"(a-typed) the output that pays the frozen address carrying every output Type value (OTVote .. OTStake, and unknown values 8/128/255) at every output position, with and without a frozen input, heights S-1,S,S+1,MaxUint32; (a-seq) 6 two-entry lists (both listing orders of the start heights) x every sequence of up to 3 validations at heights {below both, between, above both} on ONE shared slice x 5 probe transactions: every verdict == stateless reference and the slice is unchanged after every call; " +
 			"(b) SetupConfig on a config file for 12 ActiveNet spellings x 8 FrozenAddresses overrides (+ InstantBlock branch): mainnet names -> exactly the coordinated entry, program hash resolved, and the real helper refuses spends/payments at S and later but not before; " +
 			"(c) complete ContextCheck on a light node: signed, otherwise valid TransferAsset spending from / paying to a frozen harness-owned address and paying to the coordinated address, heights S-1,S,S+1. " +
 			"non-trivial = distinct (placement, address, height offset, list, verdict) classes for TransferAsset + distinct resulting configurations + distinct context classes",
